@@ -70,4 +70,28 @@ TEXT = {
                 "the model and judged by the Lean order specification.",
         "note": "Trusted: Lean kernel; transcription of request.go/resource.go/service.go into Model/Req.lean; encoding/json (payloads canonicalised); the script interpreter in the harness. Handlers that never return are excluded; panic(nil) has Go >= 1.21 semantics. Event values that cannot be marshalled are outside the property (nothing is published but listeners run; documented in DESIGN.md).",
     },
+    "C01": {
+        "text": "Lean 4 theorem (Props/C01.lean): in EVERY state reachable by ANY sequence of actions of the pool transition system (any number of workers, submitters, groups, "
+                "start/stop/start cycles, every interleaving at mutex granularity, even spurious wake-ups) no two workers run callbacks of the same non-parallel group; "
+                "invariant: at most one live work item per group, registered in rwork. Tie: traces of the instrumented real service (notes made under the mutex) from stress "
+                "workloads (1-32 workers, requests + WithGroup, mid-way Shutdown, restart cycles, schedule perturbation at gates) and steered schedules are replayed through "
+                "Pool.step action by action (observed behaviours are model behaviours) and judged independently for mutual exclusion.",
+        "note": "Trusted: Lean kernel; the pool model (one action per critical section of the service mutex); the verif hooks and the trace recorder; sync.Mutex/Cond/WaitGroup/atomic as documented. A Wait that returns before its Signal was recorded is validated as a spurious wake-up (the model allows them; the theorems hold with them). Callbacks terminate.",
+    },
+    "C02": {
+        "text": "Lean 4 theorems (Props/C02.lean) for every reachable state: per group the started callbacks are a subsequence of the accepted ones in enqueue order; without Shutdown "
+                "accepted = started ++ pending exactly (never dropped, never reordered); distinct submissions never start twice; nothing unaccepted runs; rwork registers exactly the "
+                "groups with a live item; no lost wake-up (queued work implies a worker that will look or a submitter that owes a Signal); a worker looking at the queue starts its head. "
+                "Tie as C01; the trace judge checks FIFO and exactly-once against the enqueue order under the mutex, and the model replay checks every started callback against the one "
+                "the model says is next.",
+        "note": "Trusted: Lean kernel; the pool model (one action per critical section of the service mutex); the verif hooks and the trace recorder; sync.Mutex/Cond/WaitGroup/atomic as documented. A Wait that returns before its Signal was recorded is validated as a spurious wake-up (the model allows them; the theorems hold with them). Callbacks terminate. 'Eventually starts' is shown as no-lost-wakeup + progress of the worker's own step, under fairness of worker steps.",
+    },
+    "C03": {
+        "text": "Lean 4 theorems (Props/C03.lean): once close() has set the queue to nil only the next Serve re-opens it (a submission that passed the state check earlier is refused under the "
+                "lock); Shutdown returns only when all workers have exited, hence drained; nothing starts afterwards; with the queue closed the sum of the workers' remaining steps "
+                "never increases, strictly decreases with every worker step, and after the broadcast no worker is blocked (bounded exit); a stopped service can be served again. "
+                "Tie as C01 plus steered schedules through the runWith/worker gates (late submission after close, retire/append window, Signal gap) for 1-3 workers; the judge requires "
+                "Shutdown and Serve to return, no callback after it, no panicking API call, the connection closed once.",
+        "note": "Trusted: Lean kernel; the pool model (one action per critical section of the service mutex); the verif hooks and the trace recorder; sync.Mutex/Cond/WaitGroup/atomic as documented. A Wait that returns before its Signal was recorded is validated as a spurious wake-up (the model allows them; the theorems hold with them). Callbacks terminate. PARTIAL: real-time bounds, the Go runtime's WaitGroup reuse rule and callbacks that never return are outside the model; liveness is 'finitely many enabled steps remain'.",
+    },
 }
